@@ -61,6 +61,25 @@ CViewIter(c, v, fi, fj) ==
      ELSE [u \in 1..Len(a) |-> <<(a[u] - 1) \div v.vc, (a[u] - 1) % v.vc,
                                  c[v.map[<<(a[u] - 1) \div v.vc, (a[u] - 1) % v.vc>>]]>>]
 
+(* WHOLE-VIEW operations with the view as receiver; b = the elements of a second matrix of the same size (the   *)
+(* operand is the SAME view of that matrix), x a scalar.  Every element of the view gets its new value, every   *)
+(* element of the matrix OUTSIDE the view keeps its value (frame condition).                                    *)
+BulkOps == {"w_reset", "w_identity", "w_set", "w_mdotm", "w_muls", "w_addm", "w_map"}
+BulkOperandOps == {"w_set", "w_mdotm", "w_addm"}
+BulkElem(name, i, j, a, bb, x) ==
+  CASE name = "w_reset"    -> 0
+    [] name = "w_identity" -> IF i = j THEN 1 ELSE 0
+    [] name = "w_set"      -> bb
+    [] name = "w_mdotm"    -> bb              \* view.MdotM(identity, the operand's view)
+    [] name = "w_muls"     -> a * x
+    [] name = "w_addm"     -> a + bb
+    [] name = "w_map"      -> 0 - a           \* Map with a zero-preserving function (negation)
+CViewBulk(c, v, name, b, x) ==
+  LET cells == (0..(v.vr-1)) \X (0..(v.vc-1))
+      at(k) == CHOOSE ij \in cells : v.map[ij] = k
+      inview == {v.map[ij] : ij \in cells}
+  IN TLCEval([k \in DOMAIN c |-> IF k \in inview THEN BulkElem(name, at(k)[1], at(k)[2], c[k], b[k], x) ELSE c[k]])
+
 (* the words explored: up to `depth` steps, at most `nt` transpositions, every slice within the current   *)
 (* dimensions (empty ranges included); an empty view is not sliced further                                  *)
 Ranges(m) == {ab \in (0..m) \X (0..m) : ab[1] <= ab[2] /\ ~(ab[1] = 0 /\ ab[2] = m /\ m > 0)} \cup {<<0, m>>}
